@@ -1,1 +1,28 @@
-From WT Require Import Base.Wrap.
+(** * C17 — Concurrent reads are race-free and equal to sequential reads (PARTIAL).
+    What is proved: in the page-buffer model a read may load pages but never changes what the
+    buffer shows nor the disk, so a read issued after (hence interleaved with) other reads returns
+    the bytes it returns alone.  Not expressible here: data-race freedom in the sense of the Go
+    memory model (the real buffer serialises ReadAt with a mutex); that is exercised on every run
+    by concurrent fetches under the race detector. *)
+From WT Require Import Base.Wrap Base.ListX Model.FileBuf Proofs.FileBufProofs.
+
+Theorem C17_read_preserves_view b off len : fb_inv b -> 0 < len ->
+  match read_at b off len with
+  | IoErr => ~ (0 <= off /\ off + len <= fb_size b)
+  | IoOk (b', data) =>
+    fb_inv b' /\ fb_disk b' = fb_disk b /\ fb_dirty b' = fb_dirty b /\
+    (forall i, 0 <= i < fb_size b -> view b' i = view b i) /\
+    data = map (fun k => view b (off + Z.of_nat k)) (seq 0 (Z.to_nat len))
+  end.
+Proof. exact (read_at_spec b off len). Qed.
+Print Assumptions C17_read_preserves_view.
+
+Theorem C17_read_after_read_equals_read_alone b o1 l1 o2 l2 b1 d1 : fb_inv b -> 0 < l1 -> 0 < l2 ->
+  read_at b o1 l1 = IoOk (b1, d1) ->
+  match read_at b o2 l2, read_at b1 o2 l2 with
+  | IoOk (_, d2), IoOk (_, d2') => d2' = d2
+  | IoErr, IoErr => True
+  | _, _ => False
+  end.
+Proof. exact (read_after_read b o1 l1 o2 l2 b1 d1). Qed.
+Print Assumptions C17_read_after_read_equals_read_alone.
